@@ -61,7 +61,7 @@ def matrix():
     return out
 
 
-def guarded_call(x, api, data, zeros_seen):
+def guarded_call(x, api, data, zeros_seen):  # also treats a negative count as "no progress"
     """Run x.sendall/sendall_stderr with Channel.send/send_stderr wrapped on the instance: two consecutive
     zero-length results for non-empty data = no progress is possible any more -> Spin."""
     name = "send" if api == "sendall" else "send_stderr"
@@ -70,7 +70,7 @@ def guarded_call(x, api, data, zeros_seen):
 
     def wrapped(s):
         r = orig(x, s)
-        if r == 0 and len(s):
+        if r <= 0 and len(s):
             streak[0] += 1
             zeros_seen[0] += 1
             if streak[0] >= 2:
@@ -241,6 +241,139 @@ def run_case(ctx, case, rng):
         ctx.count("cases_run")
     finally:
         p.close()
+
+
+# ---------------------------------------------------------------------------
+def run_parked(ctx, case, rng):
+    """Writer parked on window 0, another thread ends the stream, the peer's adjust is processed before the writer
+    gets the lock back (cm.parked_writer_scenario).  The call must raise (sendall) / report 0 (send); it must not
+    report bytes as sent that were granted after the stream had been ended."""
+    w = SMALL_WINDOW
+    role = case["role"]
+    p = pair.Pair(rng=rng, server_kw=dict(default_window_size=w) if role == "c" else {})
+    cm.watch(p.tc, p.rec, "c")
+    cm.watch(p.ts, p.rec, "s")
+    try:
+        if not p.start() or not p.auth():
+            ctx.inconclusive("handshake failed (parked stratum)")
+            return
+        cm.diverge_ids(p, rng)
+        c, s = p.session(window_size=w if role == "s" else None)
+        mark = len(p.rec.events)
+        r = cm.parked_writer_scenario(p, c, s, role, case["api"], case["ender"], case["size"], w)
+        if not r["ok"]:
+            ctx.inconclusive("parked-writer scenario not reached: %s" % r.get("why"))
+            return
+        ctx.count("parked_writer_cases")
+        if r["seen"]["adjust_in_before_reacquire"]:
+            ctx.count("adjust_processed_before_writer_reacquired_lock")
+        x = c if role == "c" else s
+        res = r["res"]
+        grants = [e for e in p.rec.snapshot()[mark:] if e.get("kind") == "chan" and e["ev"] == "winok" and e["len"] > 0
+                  and e["thread"] == r["ident"] and (e["eof_sent"] or e["closed"]) and e["serial"] == x._vf_serial]
+        desc = dict(case=case, outcome=res.get("outcome"), value=res.get("value"))
+        ctx.count("outcome_" + str(res.get("outcome")).split(":")[0])
+        accepted = res.get("outcome") == "returned" and (case["api"].startswith("sendall") or (res.get("value") or 0) > 0)
+        if accepted:
+            ctx.violation("%s reported data as sent although the stream had been ended before the window was granted "
+                          "(ender=%s)" % (case["api"], case["ender"]),
+                          "the call was parked on window 0, %s() ran, then the adjust arrived; the call returned %r" % (
+                              case["ender"], res.get("value")), dict(desc, grants_after_end=len(grants)))
+        elif grants:
+            ctx.violation("window wait granted bytes to %s after own EOF/CLOSE" % case["api"],
+                          "_wait_for_send_window returned >0 with eof_sent/closed already set", desc)
+    finally:
+        p.close()
+
+
+# ---------------------------------------------------------------------------
+FLOOR_SIZES = (0, 1, 32, 63, 64, 65, 100, 4095)
+
+
+def run_floor(ctx, case, rng):
+    """The peer advertises a max packet size below the protocol floor: sendall must still make progress with
+    positive-size chunks."""
+    from vf.attacker import Attacker
+    role = case["role"]
+    a = Attacker(role=role, rng=rng)
+    cm.watch(a.victim, a.rec, "v")
+    holder = {}
+    try:
+        if not a.start(auth=True):
+            ctx.inconclusive("attacker handshake failed")
+            return
+        a.takeover()
+        aid = 4242
+        if role == "client":
+            a.send(cm.OPEN, "session", aid, 1 << 21, case["pkt"])
+            r = a.wait_inbox(lambda e: e["type"] == cm.OPEN_OK, 20)
+            vchan = a.victim.accept(20) if r is not None else None
+        else:
+            def opener():
+                try:
+                    holder["chan"] = a.victim.open_session(timeout=30)
+                except Exception as e:
+                    holder["exc"] = e
+            th = threading.Thread(target=opener, daemon=True)
+            th.start()
+            r = a.wait_inbox(lambda e: e["type"] == cm.OPEN, 20)
+            if r is not None:
+                vid = cm.parse(bytes([cm.OPEN]) + r["payload"])["sender"]
+                a.send(cm.OPEN_OK, vid, aid, 1 << 21, case["pkt"])
+            th.join(30)
+            vchan = holder.get("chan")
+        if vchan is None:
+            ctx.inconclusive("no victim channel (floor stratum)")
+            return
+        data = (b"\x41" if case["api"] == "sendall" else b"\xc1") * case["size"]
+        res = {}
+        zeros = [0]
+
+        def call():
+            try:
+                guarded_call(vchan, case["api"], data, zeros)
+                res["outcome"] = "returned"
+            except Spin:
+                res["outcome"] = "spin"
+            except BaseException as e:
+                res["outcome"] = "raised:" + type(e).__name__
+                res["exc"] = repr(e)
+
+        t = threading.Thread(target=call, daemon=True, name="sendall")
+        t.start()
+        give_up = time.monotonic() + 120
+        while t.is_alive() and time.monotonic() < give_up:
+            t.join(0.02)
+            if t.is_alive() and a.link.quiescent(1.0):
+                ok, stk = cm.blocked_at_quiescence([t], a.link, ctx.pick(10, 20))
+                if ok:
+                    ctx.violation("%s makes no progress with a peer max packet below the floor (blocked at quiescence)" % case["api"],
+                                  "window 2 MiB, advertised max packet %d: the call is parked" % case["pkt"],
+                                  dict(case=case, stack=stk))
+                    return
+        if t.is_alive():
+            ctx.inconclusive("floor-stratum sendall still running without quiescence")
+            return
+        pair.wait_for(lambda: a.link.quiescent(0.05), 5)
+        lens = [cm.parse(e["payload"])["len"] for e in a.victim_msgs("out", (cm.DATA, cm.EXT))]
+        ctx.count("sub_floor_packet_cases")
+        ctx.count("sub_floor_data_msgs", len(lens))
+        oc = res.get("outcome")
+        desc = dict(case=case, outcome=oc, exc=res.get("exc"), chunks=lens[:10])
+        if oc == "spin":
+            ctx.violation("%s spins when the peer's max packet is below the floor" % case["api"],
+                          "send() returned a non-positive count twice in a row (advertised max packet %d)" % case["pkt"], desc)
+        elif oc == "returned":
+            if sum(lens) != len(data) or any(n <= 0 for n in lens):
+                ctx.violation("%s returned with bytes missing or empty chunks (peer max packet below the floor)" % case["api"],
+                              "%d of %d bytes on the wire" % (sum(lens), len(data)), desc)
+            else:
+                ctx.count("sub_floor_calls_delivered")
+        else:
+            ctx.violation("%s raised on an open channel whose peer advertised a max packet below the floor (%s)" % (
+                case["api"], str(oc).split(":")[-1]), "window available, yet the call raised %s" % res.get("exc"), desc)
+    finally:
+        a.close()
 
 
 # ---------------------------------------------------------------------------
@@ -452,6 +585,23 @@ def run(ctx):
         ctx.inconclusive("matrix not finished: %d of %d cases" % (done, len(todo)))
     else:
         ctx.count("matrix_shards_complete")
+    parked = [dict(kind="parked-writer-then-end-then-adjust", role=role, ender=ender, api=api, size=size)
+              for role in "cs" for ender in ("shutdown_write", "close") for api in ("sendall", "sendall_stderr", "send")
+              for size in (100, 40000)]
+    if ctx.quick:
+        parked = [cse for j, cse in enumerate(parked) if bin(j).count("1") % 2 == ctx.seed % 2]
+    for i, case in enumerate(parked):
+        if ctx.mine(i):
+            ctx.guard(run_parked, ctx, case, rng)
+            ctx.case(tuple(sorted(case.items())), sample=case if i < 8 else None)
+    floor = [dict(kind="peer-max-packet-below-floor", role=role, pkt=pkt, api=api, size=size)
+             for pkt in FLOOR_SIZES for role in ("client", "server") for api in APIS for size in (1, 9000)]
+    if ctx.quick:
+        floor = [cse for j, cse in enumerate(floor) if bin(j).count("1") % 2 == ctx.seed % 2]  # half, mixing every dimension
+    for i, case in enumerate(floor):
+        if ctx.mine(i):
+            ctx.guard(run_floor, ctx, case, rng)
+            ctx.case(tuple(sorted(case.items())), sample=case if i < 8 else None)
     timed = [dict(kind="timed-windowless-wakeups", t=t, api=api, role=role)
              for t in (0.3, 0.6) for api in APIS for role in "cs"] * ctx.pick(1, 2)
     for i, case in enumerate(timed):
@@ -468,4 +618,9 @@ def run(ctx):
     ctx.require("timed_calls_with_windowless_wakeups", 4)
     ctx.require("wakeups_delivered", 16)
     ctx.require("timed_cases_run", 6)
+    ctx.require("parked_writer_cases", 10)
+    ctx.require("adjust_processed_before_writer_reacquired_lock", 8)
+    ctx.require("sub_floor_packet_cases", 24)
+    ctx.require("sub_floor_calls_delivered", 24)
+    ctx.require("sub_floor_data_msgs", 40)
     ctx.require("matrix_shards_complete", 8 if ctx.quick else 16)
